@@ -1,13 +1,15 @@
 #!/usr/bin/env python3
 """Copy sub-agent outputs /tmp/wt_<ID>/out/{bugN.diff,demoN.py,metaN.json} to /verif/seeded/<ID>-<N>/"""
 import json, os, shutil, sys
+PREFIX = os.environ.get("WT_PREFIX", "/tmp/wt_")
+OFFSET = int(os.environ.get("NUM_OFFSET", "0"))
 for cid in sys.argv[1:]:
-    out = "/tmp/wt_%s/out" % cid
+    out = "%s%s/out" % (PREFIX, cid)
     for n in (1, 2, 3):
         b = os.path.join(out, "bug%d.diff" % n)
         if not os.path.exists(b):
             continue
-        d = "/verif/seeded/%s-%d" % (cid, n)
+        d = "/verif/seeded/%s-%d" % (cid, n + OFFSET)
         os.makedirs(d, exist_ok=True)
         shutil.copy(b, os.path.join(d, "patch.diff"))
         shutil.copy(os.path.join(out, "demo%d.py" % n), os.path.join(d, "demo.py"))
@@ -16,6 +18,7 @@ for cid in sys.argv[1:]:
         except Exception:
             meta = {"property": cid, "summary": "?", "needs": "?"}
         meta["property"] = cid
-        meta["origin"] = "fresh sub-agent given only the property text and a scratch worktree"
+        meta["origin"] = "fresh sub-agent given only the property text and a scratch worktree" + (
+            " (round 2: asked for changes that need a fault, an interleaving or a multi-session history)" if OFFSET else "")
         json.dump(meta, open(os.path.join(d, "meta.json"), "w"), indent=1)
         print("imported", d)
